@@ -62,8 +62,8 @@ STATEMENT_STATUS: Dict[str, str] = {
     "C08_hierarchy": "proved (leaves in DFS order = output boxes; group bbox, class, member order)",
     "C08_text_line": "proved (definitional)", "C08_text_box": "proved (definitional)",
     "C08_text_group": "proved (definitional)", "C08_text_line_break": "proved",
-    "not proved": "a box holds only lines of its own class; group_textboxes returns at most one root (both checked "
-                  "on the implementation by the oracle)",
+    "C08_box_uniform": "proved (a box only holds lines of its own class)",
+    "C08_single_root": "proved (group_textboxes ends with at most one object in the plane, for every heap comparison)",
 }
 
 CLASSIFIERS = {
